@@ -261,7 +261,7 @@ def _run(ctx):
                      "auto-trait half is a complete decision over the extracted impls (class abstraction lemma)")
     facts = traits_facts.regen(ctx)
     ctx.coverage["generated_facts"] = facts_summary(facts)
-    ok, out = common.lean_obligations(ctx, MODULE)
+    ok, out = common.lean_obligations(ctx, MODULE, ["TriompheModel.Props.ApiShape"])
     ctx.coverage["checker_cmd"] = ("extract_traits --repo <repo> --out Generated/ && cd /verif/lean && lake build TriompheModel.Props.C13 drv_traits "
                                    "&& lake env lean <#print axioms audit>; then rustc probes vs drv_traits")
     ctx.coverage["trusted_base"] = common.TRUSTED_BASE + [
